@@ -28,6 +28,12 @@
      hmac  s=h a=<<k,m>>   HMAC-h(key k, message m)
      hash  s=h a=<<m>>     h(m)
      u8/u16/u24/u32  n     big-endian unsigned integer of 1/2/3/4 bytes
+     u64   n               big-endian unsigned integer of 8 bytes (n < 2^31)
+   Symmetric primitives used by the record layer (also uninterpreted; interpretation =
+   crypto/aes, crypto/des, crypto/cipher, crypto/rc4 of the Go standard library):
+     aead  s=alg a=<<key,nonce,aad,pt>>   AEAD-seal: ciphertext followed by the 16-byte tag (alg "aesgcm")
+     cbc   s=alg a=<<key,iv,pt>>          CBC encryption of a whole number of blocks (alg "aes", "3des")
+     rc4   a=<<key,data>> n=skip          data xor the RC4 keystream of key from offset skip
 *)
 EXTENDS Naturals, Sequences
 
@@ -48,6 +54,10 @@ U8(n)        == Term("u8", <<>>, n, "", <<>>)
 U16(n)       == Term("u16", <<>>, n, "", <<>>)
 U24(n)       == Term("u24", <<>>, n, "", <<>>)
 U32(n)       == Term("u32", <<>>, n, "", <<>>)
+U64(n)       == Term("u64", <<>>, n, "", <<>>)
+Aead(alg, key, nonce, aad, pt) == Term("aead", <<key, nonce, aad, pt>>, 0, alg, <<>>)
+Cbc(alg, key, iv, pt) == Term("cbc", <<key, iv, pt>>, 0, alg, <<>>)
+Rc4(key, skip, data) == Term("rc4", <<key, data>>, skip, "", <<>>)
 Empty        == Lit(<<>>)
 
 (* Output sizes of the hash functions that occur in TLS key derivation. *)
@@ -104,6 +114,10 @@ TermLen(t) ==
     [] t.op = "u16"  -> 2
     [] t.op = "u24"  -> 3
     [] t.op = "u32"  -> 4
+    [] t.op = "u64"  -> 8
+    [] t.op = "aead" -> TermLen(t.a[4]) + 16
+    [] t.op = "cbc"  -> TermLen(t.a[3])
+    [] t.op = "rc4"  -> TermLen(t.a[2])
 
 (* Sub(t, from, n): n bytes of t starting at offset from (0-based). *)
 Sub(t, from, n) == Take(Drop(t, from), n)
@@ -121,4 +135,6 @@ WellFormed(t) ==
   /\ t.op = "u8"  => t.n < 256
   /\ t.op = "u16" => t.n < 65536
   /\ t.op = "u24" => t.n < 16777216
+  /\ t.op = "cbc" => TermLen(t.a[3]) % (IF t.s = "3des" THEN 8 ELSE 16) = 0 /\ TermLen(t.a[2]) = (IF t.s = "3des" THEN 8 ELSE 16)
+  /\ t.op = "aead" => TermLen(t.a[2]) = 12
 =============================================================================
